@@ -188,11 +188,12 @@ fn plan(sh: &Sh, j: usize) -> Plan {
     if !sh.r_unwind && end != End::Ret(v) && ops.last().map(|o| o.kind == LK::R).unwrap_or(false) {
         hold_at_end = false;
     }
+    let early_cancel = (r.below(2) == 0) && sh.early;
     let mut block_how = r.below(3);
     if sh.nosleep && block_how == 1 {
         block_how = 0;
     }
-    Plan { ops, hold_at_end, end, early_cancel: sh.early && r.below(2) == 0, block_how }
+    Plan { ops, hold_at_end, end, early_cancel, block_how }
 }
 
 /// dropped BEFORE the guard (declared after it): leaves the critical section
